@@ -21,7 +21,6 @@ package store
 import (
 	"context"
 	"database/sql"
-	"fmt"
 	"strings"
 	"time"
 
@@ -221,8 +220,8 @@ func (m *TaskInfoMysqlStore) Put(ctx context.Context, metaObj *meta.TaskInfo, tx
 }
 
 func (m *TaskInfoMysqlStore) Get(ctx context.Context, metaObj *meta.TaskInfo, txn any) ([]*meta.TaskInfo, error) {
-	sqlStr := fmt.Sprintf("SELECT task_info_value FROM task_info WHERE task_info_key LIKE '%s%%'", getTaskInfoPrefix(m.rootPath))
-	var sqlArgs []any
+	sqlStr := "SELECT task_info_value FROM task_info WHERE task_info_key LIKE ?"
+	sqlArgs := []any{likePrefixPattern(getTaskInfoPrefix(m.rootPath))}
 	if metaObj.TaskID != "" {
 		sqlStr += " AND task_id = ?"
 		sqlArgs = append(sqlArgs, metaObj.TaskID)
@@ -404,8 +403,8 @@ func (m *TaskCollectionPositionMysqlStore) Put(ctx context.Context, metaObj *met
 }
 
 func (m *TaskCollectionPositionMysqlStore) Get(ctx context.Context, metaObj *meta.TaskCollectionPosition, txn any) ([]*meta.TaskCollectionPosition, error) {
-	sqlStr := fmt.Sprintf("SELECT task_id, collection_id, collection_name, task_position_value, op_position_value, target_position_value FROM task_position WHERE task_position_key LIKE '%s%%'", getTaskCollectionPositionPrefix(m.rootPath))
-	var sqlArgs []any
+	sqlStr := "SELECT task_id, collection_id, collection_name, task_position_value, op_position_value, target_position_value FROM task_position WHERE task_position_key LIKE ?"
+	sqlArgs := []any{likePrefixPattern(getTaskCollectionPositionPrefix(m.rootPath))}
 	if metaObj.TaskID != "" || metaObj.CollectionID != 0 {
 		if metaObj.TaskID != "" {
 			sqlStr += " AND task_id = ?"
